@@ -479,16 +479,17 @@ type FPlan struct {
 	FillAt  int  `json:"fill_at"` // ms; -1 = never
 }
 type FW struct {
-	StartMs int `json:"start"`
-	Timeout int `json:"timeout"` // 0 = Wait (or WaitContext without deadline), else WaitContext with that deadline
-	Plain   bool `json:"plain,omitempty"`
+	StartMs    int  `json:"start"`
+	Timeout    int  `json:"timeout"` // 0 = Wait (or WaitContext without deadline), else WaitContext whose context ends that much later
+	Plain      bool `json:"plain,omitempty"`
+	CancelOnly bool `json:"cancel_only,omitempty"` // the context has no deadline: it is cancelled explicitly after Timeout
 }
 
 func genF(t *rapid.T) FPlan {
 	p := FPlan{FillAt: rapid.SampledFrom([]int{0, 5, 10, 10, 20}).Draw(t, "fillat")}
 	for n := rapid.IntRange(1, 6).Draw(t, "n"); n > 0; n-- {
 		p.Waiters = append(p.Waiters, FW{StartMs: rapid.SampledFrom([]int{0, 5, 10, 15, 30}).Draw(t, "start"),
-			Timeout: rapid.SampledFrom([]int{0, 0, 3, 10, 50}).Draw(t, "timeout"), Plain: rapid.Bool().Draw(t, "plain")})
+			Timeout: rapid.SampledFrom([]int{0, 0, 3, 10, 50}).Draw(t, "timeout"), Plain: rapid.Bool().Draw(t, "plain"), CancelOnly: rapid.Bool().Draw(t, "cancelonly")})
 	}
 	return p
 }
@@ -514,8 +515,13 @@ func runF(p FPlan) (vk.Outcome, error) {
 				} else {
 					ctx := context.Background()
 					cancel := func() {}
-					if wt.Timeout > 0 {
+					if wt.Timeout > 0 && !wt.CancelOnly {
 						ctx, cancel = context.WithTimeout(ctx, time.Duration(wt.Timeout)*time.Millisecond)
+					} else if wt.Timeout > 0 {
+						var c context.CancelFunc
+						ctx, c = context.WithCancel(ctx)
+						tm := time.AfterFunc(time.Duration(wt.Timeout)*time.Millisecond, c)
+						cancel = func() { tm.Stop(); c() }
 					}
 					v, err = f.WaitContext(ctx)
 					cancel()
@@ -533,7 +539,7 @@ func runF(p FPlan) (vk.Outcome, error) {
 					} else if want := max(wt.StartMs, p.FillAt); at != want {
 						errs[i] = vk.Violf("future-late", "waiter %d returned at %dms, want %dms", i, at, want)
 					}
-				case wt.Timeout > 0 && errors.Is(err, context.DeadlineExceeded):
+				case wt.Timeout > 0 && (errors.Is(err, context.DeadlineExceeded) || (wt.CancelOnly && errors.Is(err, context.Canceled))):
 					if at != deadline || deadline > p.FillAt && wt.StartMs >= p.FillAt {
 						errs[i] = vk.Violf("future-ctx", "waiter %d gave up at %dms (deadline %dms, Fill at %dms)", i, at, deadline, p.FillAt)
 					}
